@@ -24,6 +24,13 @@ pub struct Caller {
     /// keep the call future unpolled for this long before awaiting it
     #[serde(default)]
     pub hold_unpolled_ms: u64,
+    /// which of the services built from the one layer this caller uses (0 or 1)
+    #[serde(default)]
+    pub svc: u8,
+    /// 0 = a clone made before any call, 1 = the one shared handle itself, 2 = a clone of the
+    /// shared handle made when this caller arrives (1 and 2 only in shared-handle scenarios)
+    #[serde(default)]
+    pub handle: u8,
 }
 
 #[derive(Clone, Debug, Serialize, Deserialize, PartialEq)]
@@ -35,6 +42,19 @@ pub struct Scn {
     pub probe_at: u64,
     pub listener_panic: bool,
     pub knobs: SchedKnobs,
+    /// a second service built from the same layer (own inner service, must have its own slots)
+    #[serde(default)]
+    pub two_services: bool,
+    /// callers use one never-cloned handle (or clone it only when they arrive)
+    #[serde(default)]
+    pub shared_handle: bool,
+    /// redundant builder calls made before the final settings (the last setter wins):
+    /// 0 none, 1 reject_when_full(), 2 preset small(), 3 max_wait_duration(3ms), 4 max_concurrent_calls(max+2)
+    #[serde(default)]
+    pub pre: u8,
+    /// final max_wait_duration set before (true) or after max_concurrent_calls
+    #[serde(default)]
+    pub wait_first: bool,
 }
 
 const PROBE_LAT: u64 = 20;
@@ -48,6 +68,8 @@ pub fn gen(rng: &mut Rng) -> Scn {
     let starts = [0u64, 0, 0, 1, 5, 5, 10, 10, 15, 20, 25, 30, 40];
     let lats = [0u64, 5, 5, 10, 10, 15, 20, 25, 30, 50];
     let mut callers = vec![];
+    let two_services = rng.chance(1, 4);
+    let shared_handle = rng.chance(1, 5);
     for _ in 0..n {
         let start_ms = *rng.pick(&starts);
         let beh = if faulty {
@@ -67,9 +89,16 @@ pub fn gen(rng: &mut Rng) -> Scn {
             drop_unpolled: faulty && rng.chance(1, 12),
             depth: rng.below(3) as u8,
             hold_unpolled_ms: if faulty && rng.chance(1, 10) { *rng.pick(&[1u64, 5, 10, 20]) } else { 0 },
+            svc: if two_services { rng.below(2) as u8 } else { 0 },
+            handle: if shared_handle { *rng.pick(&[1u8, 1, 2]) } else { 0 },
         });
     }
+    let pre = if max_wait.is_some() { *rng.pick(&[0u8, 0, 0, 1, 2, 3, 4]) } else { *rng.pick(&[0u8, 0, 0, 4]) };
     Scn {
+        two_services,
+        shared_handle,
+        pre,
+        wait_first: rng.chance(1, 2),
         max,
         max_wait,
         callers,
@@ -91,6 +120,10 @@ pub fn valid(s: &Scn) -> bool {
         && (s.probes == 0 || (s.probe_at >= 900 && s.probe_at <= 2000 && s.probes == s.max + 1))
         && s.knobs.jumps.iter().all(|j| j.0 <= 500 && j.1 <= 200)
         && s.knobs.jumps.len() <= 3
+        && s.pre <= 4
+        && (s.max_wait.is_some() || s.pre == 0 || s.pre == 4)
+        && s.callers.iter().all(|c| c.svc <= 1 && (s.two_services || c.svc == 0))
+        && s.callers.iter().all(|c| if s.shared_handle { c.handle == 1 || c.handle == 2 } else { c.handle == 0 })
 }
 
 fn map_out(r: Result<crate::inner::Resp, BulkheadServiceError<crate::inner::SimErr>>) -> Out {
@@ -116,7 +149,7 @@ pub fn run(s: &Scn, ctx: &mut RunCtx, prefix: &'static str) -> RunOutput {
         // scripts
         world::with(|w| {
             for (i, c) in scn.callers.iter().enumerate() {
-                w.script.by_req.insert((0, i as u32), vec![c.beh]);
+                w.script.by_req.insert((c.svc, i as u32), vec![c.beh]);
             }
             for p in 0..scn.probes {
                 w.script.by_req.insert(
@@ -129,9 +162,24 @@ pub fn run(s: &Scn, ctx: &mut RunCtx, prefix: &'static str) -> RunOutput {
                 );
             }
         });
-        let mut b = BulkheadLayer::builder().max_concurrent_calls(scn.max as usize);
-        if let Some(w) = scn.max_wait {
-            b = b.max_wait_duration(if w == u64::MAX { Duration::MAX } else { Duration::from_millis(w) });
+        let mut b = match scn.pre {
+            1 => BulkheadLayer::builder().reject_when_full(),
+            2 => BulkheadLayer::small(),
+            3 => BulkheadLayer::builder().max_wait_duration(Duration::from_millis(3)),
+            4 => BulkheadLayer::builder().max_concurrent_calls(scn.max as usize + 2),
+            _ => BulkheadLayer::builder(),
+        };
+        let wait = scn.max_wait.map(|w| if w == u64::MAX { Duration::MAX } else { Duration::from_millis(w) });
+        if scn.wait_first {
+            if let Some(w) = wait {
+                b = b.max_wait_duration(w);
+            }
+            b = b.max_concurrent_calls(scn.max as usize);
+        } else {
+            b = b.max_concurrent_calls(scn.max as usize);
+            if let Some(w) = wait {
+                b = b.max_wait_duration(w);
+            }
         }
         if scn.listener_panic {
             b = b
@@ -147,18 +195,22 @@ pub fn run(s: &Scn, ctx: &mut RunCtx, prefix: &'static str) -> RunOutput {
                 .on_call_failed(|_| std::panic::panic_any(SimPanic));
         }
         let layer = b.build();
-        let base = layer.layer(SimInner::new(0));
+        // the one shared handle per service (never cloned unless a caller clones it on arrival)
+        let shared: Vec<std::rc::Rc<std::cell::RefCell<_>>> = (0..2u8)
+            .map(|k| std::rc::Rc::new(std::cell::RefCell::new(layer.layer(SimInner::new(k)))))
+            .collect();
         let mut defs = vec![];
         for i in 0..total_tasks {
-            let (start_ms, cancel, drop_unpolled, depth, hold) = if i < n {
+            let (start_ms, cancel, drop_unpolled, depth, hold, which, handle) = if i < n {
                 let c = &scn.callers[i];
-                (c.start_ms, c.cancel.to_cancel(), c.drop_unpolled, c.depth, c.hold_unpolled_ms)
+                (c.start_ms, c.cancel.to_cancel(), c.drop_unpolled, c.depth, c.hold_unpolled_ms, c.svc, c.handle)
             } else {
-                (scn.probe_at, crate::exec::Cancel::Never, false, 0, 0)
+                (scn.probe_at, crate::exec::Cancel::Never, false, 0, 0, 0, if scn.shared_handle { 1 } else { 0 })
             };
-            let mut svc = base.clone();
+            let sh = shared[which as usize].clone();
+            let mut early = if handle == 0 { Some(sh.borrow().clone()) } else { None };
             for _ in 0..depth {
-                svc = svc.clone();
+                early = early.map(|s| s.clone());
             }
             let req = Req {
                 id: i as u32,
@@ -166,11 +218,22 @@ pub fn run(s: &Scn, ctx: &mut RunCtx, prefix: &'static str) -> RunOutput {
             };
             let make: Box<dyn FnOnce() -> LocalFut> = Box::new(move || {
                 Box::pin(async move {
-                    let mut svc = svc;
-                    match svc.ready().await {
+                    let mut own = match handle {
+                        0 => early,
+                        2 => Some(sh.borrow().clone()),
+                        _ => None,
+                    };
+                    let ready = match own.as_mut() {
+                        Some(svc) => svc.ready().await.map(|_| ()),
+                        None => std::future::poll_fn(|cx| sh.borrow_mut().poll_ready(cx)).await,
+                    };
+                    match ready {
                         Err(e) => map_out(Err(e)),
-                        Ok(sv) => {
-                            let f = sv.call(req);
+                        Ok(()) => {
+                            let f = match own.as_mut() {
+                                Some(svc) => svc.call(req),
+                                None => sh.borrow_mut().call(req),
+                            };
                             if drop_unpolled {
                                 world::fault("drop_unpolled");
                                 drop(f);
@@ -181,7 +244,7 @@ pub fn run(s: &Scn, ctx: &mut RunCtx, prefix: &'static str) -> RunOutput {
                                 tokio::time::sleep(Duration::from_millis(hold)).await;
                             }
                             // arrival = the first poll of the call future
-                            world::note("arrive", i as i64, 0);
+                            world::note("arrive", i as i64, which as i64);
                             map_out(f.await)
                         }
                     }
@@ -196,47 +259,52 @@ pub fn run(s: &Scn, ctx: &mut RunCtx, prefix: &'static str) -> RunOutput {
         defs
     };
     let mut step = |_k| {
-        let inf = world::with(|w| w.in_flight[0]);
-        if inf > max {
-            world::violation(
-                "C01.in_flight_le_max",
-                "",
-                format!("{} calls inside the inner service, max_concurrent_calls={}", inf, max),
-            );
+        for k in 0..2 {
+            let inf = world::with(|w| w.in_flight[k]);
+            if inf > max {
+                world::violation(
+                    "C01.in_flight_le_max",
+                    "",
+                    format!("{} calls inside the inner service of service {}, max_concurrent_calls={}", inf, k, max),
+                );
+            }
         }
     };
     let mut idle = || {
         // C07.work_conserving: at a quiescent point nobody is queued while a slot is free
-        let (queued, inf) = world::with(|w| {
-            let mut started = std::collections::BTreeSet::new();
-            for r in &w.log {
-                match &r.ev {
-                    Ev::Note { tag: "arrive", a, .. } => {
-                        started.insert(*a as u32);
+        for k in 0..2i64 {
+            let (queued, inf) = world::with(|w| {
+                let mut started = std::collections::BTreeSet::new();
+                for r in &w.log {
+                    match &r.ev {
+                        Ev::Note { tag: "arrive", a, b } if *b == k => {
+                            started.insert(*a as u32);
+                        }
+                        Ev::TaskEnd { task, .. } => {
+                            started.remove(task);
+                        }
+                        Ev::InnerCall { req, .. } => {
+                            started.remove(req);
+                        }
+                        _ => {}
                     }
-                    Ev::TaskEnd { task, .. } => {
-                        started.remove(task);
-                    }
-                    Ev::InnerCall { req, .. } => {
-                        started.remove(req);
-                    }
-                    _ => {}
                 }
+                (started, w.in_flight[k as usize])
+            });
+            if !queued.is_empty() && inf < max {
+                world::violation(
+                    "C07.work_conserving",
+                    "",
+                    format!(
+                        "at a quiescent point (t={}ms) callers {:?} of service {} are queued while only {} of {} slots are in use",
+                        world::now_ms(),
+                        queued,
+                        k,
+                        inf,
+                        max
+                    ),
+                );
             }
-            (started, w.in_flight[0])
-        });
-        if !queued.is_empty() && inf < max {
-            world::violation(
-                "C07.work_conserving",
-                "",
-                format!(
-                    "at a quiescent point (t={}ms) callers {:?} are queued while only {} of {} slots are in use",
-                    world::now_ms(),
-                    queued,
-                    inf,
-                    max
-                ),
-            );
         }
     };
     let rep = run_sim(
@@ -262,8 +330,9 @@ pub fn run(s: &Scn, ctx: &mut RunCtx, prefix: &'static str) -> RunOutput {
     }
     let mut contention = false;
     let mut had_fault = false;
-    for c in calls.iter().filter(|c| c.svc == 0) {
-        let before = in_flight_before(&calls, 0, c.start_seq);
+    let svc_of = |i: usize| -> u8 { if i < n { s.callers[i].svc } else { 0 } };
+    for c in calls.iter() {
+        let before = in_flight_before(&calls, c.svc, c.start_seq);
         if before as i64 >= max {
             world::violation(
                 "C01.in_flight_le_max",
@@ -275,12 +344,14 @@ pub fn run(s: &Scn, ctx: &mut RunCtx, prefix: &'static str) -> RunOutput {
             );
         }
     }
-    if world::with(|w| w.max_in_flight[0]) > max {
-        world::violation(
-            "C01.in_flight_le_max",
-            "",
-            format!("peak in-flight {} > max {}", world::with(|w| w.max_in_flight[0]), max),
-        );
+    for k in 0..2 {
+        if world::with(|w| w.max_in_flight[k]) > max {
+            world::violation(
+                "C01.in_flight_le_max",
+                "",
+                format!("peak in-flight {} > max {} (service {})", world::with(|w| w.max_in_flight[k]), max, k),
+            );
+        }
     }
     let first_poll: Vec<Option<(u64, u32)>> = arrive.iter().map(|a| a.map(|(s, _, st)| (s, st))).collect();
     let arr_us = |i: usize| arrive[i].map(|a| a.1).unwrap_or(0);
@@ -288,19 +359,21 @@ pub fn run(s: &Scn, ctx: &mut RunCtx, prefix: &'static str) -> RunOutput {
         let Some((fp_seq, fp_step)) = first_poll[i] else { continue };
         let is_probe = i >= n;
         let drop_unpolled = !is_probe && s.callers[i].drop_unpolled;
-        let my_calls: Vec<_> = calls.iter().filter(|c| c.svc == 0 && c.req == i as u32).collect();
-        let before = in_flight_before(&calls, 0, fp_seq) as i64;
+        let k = svc_of(i);
+        let my_calls: Vec<_> = calls.iter().filter(|c| c.svc == k && c.req == i as u32).collect();
+        let before = in_flight_before(&calls, k, fp_seq) as i64;
         if before >= max && !is_probe {
             contention = true;
         }
         // queued before my arrival
         let queued_before = rep.tasks.iter().enumerate().any(|(j, u)| {
             j != i
+                && svc_of(j) == k
                 && arrive[j].map(|a| a.0 < fp_seq).unwrap_or(false)
                 && (u.end_seq == 0 || u.end_seq > fp_seq)
                 && !calls
                     .iter()
-                    .any(|c| c.svc == 0 && c.req == j as u32 && c.start_seq < fp_seq)
+                    .any(|c| c.svc == k && c.req == j as u32 && c.start_seq < fp_seq)
         });
         if !drop_unpolled && before < max && !queued_before {
             // "at once" = at the same virtual instant (an implementation may hop through a spawned task)
@@ -417,7 +490,7 @@ pub fn run(s: &Scn, ctx: &mut RunCtx, prefix: &'static str) -> RunOutput {
                     && !my_calls.is_empty();
                 let end_inflight = calls
                     .iter()
-                    .filter(|c| c.svc == 0 && c.end_seq.is_none())
+                    .filter(|c| c.svc == k && c.end_seq.is_none())
                     .count() as i64;
                 let blocked = eff_max_wait.is_none() && my_calls.is_empty() && end_inflight >= max;
                 if !own_never && !blocked {
